@@ -9,6 +9,14 @@ step every live table is compared with its model (column store rectangular, len,
 d[i][c] == d[c][i]); every rule that returns a new table snapshots all live tables before the call and compares them
 afterwards (operand immutability); a misfit assignment must raise ValueError and leave the table as it was.
 
+Round-4 classes (brief, appendix 11-20) are reached by construction and carry their own class labels / floors: read - change in place - read again
+on one table with the same function objects (reread), one argument container handed to several calls (shared_arg), one value in several raw types
+(cells, conditions, indices), the same table / record / list object twice among the inputs, numbers-only columns (big ints next to floats, NaN, -0.0),
+labels named twice in an input, shapes of user functions (**kw, *rest, keyword-only, defaults, one factory), predicates in inc / exc (filter_fn),
+off-by-default parameters (get default, apply defaults), sequences where one value is meant (string as long as the table, range, value list as long as
+the table), and a non-commuting list of functions in do.  The model's cells are re-pointed at the table's own objects after every verified step, so
+that identity-sensitive conditions (a NaN in a list of values) are judged on the same objects the table holds.
+
 Model conventions that the column store forces (written into the oracle, listed in ASSUMPTIONS):
   * a table with zero columns has zero rows (so `[{}]`, `d + {}` and "delete the last column" give the empty table);
   * column order is not compared;
@@ -16,7 +24,9 @@ Model conventions that the column store forces (written into the oracle, listed 
     same table, not a copy.
 """
 import copy as _copy
+import math
 import operator
+import os
 
 from hypothesis import strategies as st
 
@@ -24,7 +34,9 @@ from pv.core import MachineSub, Violation, call, call_or, must_raise, check, sho
 from pv.codec import build, s_scalar, D0
 
 ASSUMPTIONS = [
-    'cells are None, ints, finite floats, strings and datetimes (no NaN: == on NaN would make the comparison with the model ambiguous; no bools, containers)',
+    'cells are None, ints (also beyond 2**53 / 2**63), floats (also NaN, -0.0, 1e308, 5e-324; no inf), strings and datetimes; numpy float64 / int64 scalars and pandas Timestamps '
+    'count as floats / ints / datetimes (one value in several raw types); no bools, containers. Cells are carried through unchanged: a cell of the table and the cell of the model are the same '
+    'object, or have the same type and are equal (NaN equal to NaN, -0.0 not equal to 0.0) - this reading of "==" is what lets NaN cells in (lifted: NaN used to be excluded)',
     'column names are identifier-like strings that are neither dictable constructor parameters (data, columns) nor method names, and do not start with "_"',
     'a table with zero columns has zero rows (the column store cannot hold rows without columns): [{}], d + {} and deleting the last column give the empty table',
     'column order is not compared (row masks rebuild the table from records with sorted keys; the statement promises no order)',
@@ -40,9 +52,22 @@ ASSUMPTIONS = [
     'tables are kept <= 24 rows (concatenations that would exceed this are skipped)',
     'd += x, d -= cols, d &= cols are the statement forms of d + x, d - cols, d & cols: when the statement leaves a new object in the variable the old object and all other live tables '
     'must be untouched; when it leaves the same object, that object holds the result and all OTHER live tables must be untouched',
-    'd |= {col: values} is generated with a list of fitting length only: dictable inherits dict.__ior__, which stores scalars unbroadcast and lists of any length without ValueError '
-    '(reported as a finding; arg allow_raw is never generated True). d *= / d /= are join / xor (C02), not table operations of this property',
+    'd |= {col: values} is column assignment (scalar / length-1 broadcast, misfit -> ValueError): dictable.__ior__ was repaired in /repo (it used to inherit dict.__ior__), so every mode is generated '
+    '(lifted). d *= / d /= are join / xor (C02), not table operations of this property',
+    'duplicate labels in an INPUT (headers / pairs naming one column twice, d[[a, a]], d & [a, a], d - [a, a]) mean what they mean for a record: a later value for the same key replaces the earlier, '
+    'a selection names a column once; a table itself never has two columns of one name (it is a dict)',
+    'user functions (derived columns, d[f], apply, do, inc / exc predicates) are presented with the columns their NAMED parameters (positional-or-keyword and keyword-only) ask for, as documented in '
+    'Dict / kwpartial: *args and **kwargs receive nothing, a parameter that is not a column keeps its declared default (whole, also when it is a container as long as the table), a parameter '
+    'that is a column gets the cell whatever its default. The parameter name "key" (Dict._key, the target name) is not used. Predicates are judged by python truthiness of what they return',
+    'inc(f.., col = v..) applies the functions first and the value conditions after; when the functions keep no row the value conditions must still be accepted (result: no rows, all columns). '
+    'pyg-base raised KeyError there (finding F29, fixed in /repo 4fba231; replay replays/C01/F29-*.json; left out only with PV_C01_EXCLUDE_FIXED=1)',
+    'd.apply(f, **defaults): a default is used for a parameter that is not a column; a column of that name wins (docstring of Dict.apply). d.get(col, default) is the column, or default once per row',
+    'inc / exc with a NaN value keeps / drops the rows whose cell is a NaN float (docstring of inc); a NaN inside a value LIST follows python membership (identity or ==)',
+    'a string is one cell whatever its length (d[c] = "abc" on a 3-row table broadcasts "abc"); range, dict_keys and dict_values are sequences of cells like lists and tuples',
 ]
+
+# classes that expose a defect of the library on the current tree are generated only on request (see ASSUMPTIONS / the finding in the report)
+INCLUDE_FN_THEN_VALUE_EMPTY = os.environ.get('PV_C01_EXCLUDE_FIXED', '') != '1'      # F29, fixed in /repo: generated by default
 
 NAMES = ['a', 'b', 'c', 'd', 'e']
 FRESH = ['f', 'g', 'h', 'i', 'j', 'k', 'l', 'm', 'n', 'o', 'p', 'q']
@@ -56,7 +81,7 @@ class T(object):
     """columns (list of names) + rows (list of dicts holding exactly these names)"""
 
     def __init__(self, cols, rows):
-        self.cols = list(cols)
+        self.cols = list(dict.fromkeys(cols))     # a column named twice is one column
         self.rows = [{c: r[c] for c in self.cols} for r in rows] if self.cols else []
 
     @property
@@ -109,8 +134,16 @@ class T(object):
 
 
 def same(a, b):
-    """cells are carried through unchanged: identical, or equal with the same type"""
-    return a is b or (type(a) is type(b) and a == b)
+    """cells are carried through unchanged: identical, or equal with the same type (NaN equals NaN; -0.0 differs from 0.0)"""
+    if a is b:
+        return True
+    if type(a) is not type(b):
+        return False
+    if isinstance(a, float):
+        if a != a or b != b:
+            return a != a and b != b
+        return bool(a == b) and math.copysign(1.0, a) == math.copysign(1.0, b)
+    return bool(a == b)
 
 
 def same_list(xs, ys):
@@ -120,6 +153,9 @@ def same_list(xs, ys):
 def raw(d):
     """the column store, read without going through any dictable method"""
     return {k: dict.__getitem__(d, k) for k in dict.keys(d)}
+
+
+_raw = raw
 
 
 # ----------------------------------------------------------------------------- total functions on the cell universe
@@ -155,15 +191,151 @@ F2 = {
 }
 
 
+def _isint(v):
+    import numpy as np
+    return isinstance(v, (int, np.integer)) and not isinstance(v, bool)
+
+
+def _isnumber(v):
+    import numpy as np
+    return isinstance(v, (int, float, np.integer)) and not isinstance(v, bool)
+
+
+def _isnan(v):
+    return isinstance(v, float) and v != v
+
+
+def _recast(v, how):
+    """the same value in another raw type, when it has one (else v itself)"""
+    import datetime
+    import numpy as np
+    import pandas as pd
+    if isinstance(v, bool) or v is None or isinstance(v, str):
+        return v
+    if isinstance(v, pd.Timestamp):
+        return v.to_pydatetime()
+    if isinstance(v, datetime.datetime):
+        return pd.Timestamp(v)
+    if isinstance(v, (int, np.integer)):
+        if abs(int(v)) >= 2 ** 53:
+            return v
+        return [float(int(v)), np.float64(int(v)), np.int64(int(v)) if type(v) is int else int(v)][how - 1]
+    if isinstance(v, float) and v == v and abs(v) < 2 ** 53 and float(v).is_integer():
+        return [int(v), np.float64(v) if type(v) is float else float(v), np.int64(int(v))][how - 1]
+    if isinstance(v, float) and v == v:
+        return np.float64(v) if type(v) is float else float(v)
+    return v
+
+
+def _hit(x, values):
+    """python membership: identity or =="""
+    return any(x is y or bool(x == y) for y in values)
+
+
+def _cond(x, v):
+    """one value condition of inc / exc: None -> is None, NaN -> is a NaN float, a list -> membership, anything else -> =="""
+    if v is None:
+        return x is None
+    if _isnan(v):
+        return _isnan(x)
+    return _hit(x, v if isinstance(v, list) else [v])
+
+
 def _named(names, fn):
     """lambda <names>: fn(<names>)  - pyg_base looks at parameter names"""
     return eval('lambda %s: _fn(%s)' % (', '.join(names), ', '.join(names)), {'_fn': fn})
 
 
+# shapes of user functions: which parameters are NAMED decides what the table presents (see ASSUMPTIONS); a function that is handed anything it
+# must not get (something in *rest / **kw, a default replaced or distributed over the rows) answers 'LEAK', which no model function ever returns
+SHAPES = ['plain', 'plain', 'plain', 'kw', 'rest', 'p0_rest', 'kwonly', 'default_col', 'default_absent', 'allkw', 'allargs']
+DO_SHAPES = ['plain', 'plain', 'plain', 'kw', 'rest', 'kwonly', 'default_col', 'default_absent', 'other_name']
+
+
+def _container(n, cols, k):
+    """a declared default that is a container as long as the table / keyed like its columns"""
+    return [tuple(range(n)), [None] * n, {c: 0 for c in cols}, tuple(cols)][k % 4]
+
+
+def _shaped(names, fn, shape, n=0, cols=(), k=0):
+    """-> (function object, the column names it reads, reference: row dict -> cell)"""
+    names = list(names)
+    env = {'_fn': fn, '_W': _container(n, cols, k)}
+    if shape == 'allkw':
+        return eval('lambda **kw: len(kw)', env), [], (lambda row: 0)
+    if shape == 'allargs':
+        return eval('lambda *a, **kw: len(a) + len(kw)', env), [], (lambda row: 0)
+    if shape == 'p0_rest':
+        names = names[:1]
+    a = ', '.join(names)
+    body = '_fn(%s)' % a
+    if shape == 'kw':
+        src = 'lambda %s, **kw: %s if not kw else "LEAK"' % (a, body)
+    elif shape in ('rest', 'p0_rest'):
+        src = 'lambda %s, *rest: %s if not rest else "LEAK"' % (a, body)
+    elif shape == 'kwonly':
+        src = ('lambda %s, *, %s: %s' % (names[0], ', '.join(names[1:]), body)) if len(names) >= 2 else ('lambda *, %s: %s' % (a, body))
+    elif shape == 'default_col':
+        src = 'lambda %s%s=_W: %s' % (''.join(x + ', ' for x in names[:-1]), names[-1], body)
+    elif shape == 'default_absent':
+        src = 'lambda %s, wdef=_W: (%s) if wdef is _W else "LEAK"' % (a, body)
+    else:
+        src = 'lambda %s: %s' % (a, body)
+    return eval(src, env), names, (lambda row: fn(*[row[x] for x in names]))
+
+
+def _shaped_do(h, o, shape, n=0, cols=(), k=0):
+    """a function of (value, column o) for do(), in one of the shapes; h(value, other) is the reference"""
+    env = {'_h': h, '_W': _container(n, cols, k)}
+    body = '_h(value, %s)' % o
+    src = {'kw': 'lambda value, %s, **kw: %s if not kw else "LEAK"' % (o, body),
+           'rest': 'lambda value, %s, *rest: %s if not rest else "LEAK"' % (o, body),
+           'kwonly': 'lambda value, *, %s: %s' % (o, body),
+           'default_col': 'lambda value, %s=_W: %s' % (o, body),
+           'default_absent': 'lambda value, %s, wdef=_W: (%s) if wdef is _W else "LEAK"' % (o, body),
+           'other_name': 'lambda first, %s: _h(first, %s)' % (o, o)}.get(shape, 'lambda value, %s: %s' % (o, body))
+    return eval(src, env)
+
+
+def _shaped_do1(f, shape, n=0, cols=(), k=0):
+    """a function of the value alone for do()"""
+    env = {'_f': f, '_W': _container(n, cols, k)}
+    src = {'kw': 'lambda value, **kw: _f(value) if not kw else "LEAK"',
+           'rest': 'lambda value, *rest: _f(value) if not rest else "LEAK"',
+           'default_absent': 'lambda value, wdef=_W: _f(value) if wdef is _W else "LEAK"',
+           'other_name': 'lambda first: _f(first)'}.get(shape, 'lambda value: _f(value)')
+    return eval(src, env)
+
+
+def _factory(names):
+    """functions made by ONE factory share a code object and differ in their closure only"""
+    a = ', '.join(names)
+    ns = {}
+    exec('def make(_fn):\n    return lambda %s: _fn(%s)' % (a, a), ns)
+    return ns['make']
+
+
+def _freeze(x):
+    """structure of an argument container: the very objects it holds, in their order (to see a callee writing into its caller's containers)"""
+    if type(x) is dict:
+        return ('dict', [(k, id(v), _freeze(v)) for k, v in x.items()])
+    if type(x) is list:
+        return ('list', [(id(v), _freeze(v)) for v in x])
+    return ('leaf',)
+
+
+ASDEFAULT = ('a', 'default', 'object')
+
+
 # ----------------------------------------------------------------------------- the machine
 
-_cell = s_scalar()
-_vals = st.lists(_cell, min_size=1, max_size=6)
+# numbers a vectorised path would mangle (ints beyond 2**53 / 2**63 next to floats, NaN, -0.0, the ends of the float range) and one value in several raw types
+WIDE = [2 ** 53 + 1, -(2 ** 53) - 1, 2 ** 63, -(2 ** 63) - 1, 1e16, -0.0, 5e-324, 1.7976931348623157e308, ['nan', 0], ['nan', 1]]
+RAW = [['np', 'float64', 1.0], ['np', 'int64', 1], ['np', 'float64', 2.5], ['np', 'int64', 2], ['np', 'float64', 0.0], ['ts', D0 + 1, 0], ['ts', D0 + 2, 0]]
+_cell = st.one_of(s_scalar(), s_scalar(), s_scalar(), st.sampled_from(WIDE), st.sampled_from(RAW), st.just(['nan', 0]))
+_numcell = st.one_of(st.integers(-3, 6), st.sampled_from([-1.5, 0.0, 1.0, 2.0, 2.5]), st.sampled_from(WIDE), st.sampled_from(RAW[:5]))
+_vals = st.one_of(st.lists(_cell, min_size=1, max_size=6), st.lists(_cell, min_size=1, max_size=6), st.lists(_cell, min_size=1, max_size=6),
+                  st.lists(_numcell, min_size=2, max_size=6))
 _t = st.integers(0, 5)
 _ci = st.integers(0, 7)
 _name = st.sampled_from(NAMES)
@@ -181,6 +353,14 @@ def _cv(c, i, kind):
     j = (NAMES + FRESH).index(c) + 1 if c in NAMES + FRESH else 20
     if kind == 'mixed':
         kind = ['int', 'str', 'float', 'dt'][(i + j) % 4]
+    if kind == 'raw':
+        # ONE value per column, written in another raw type on every row (python int / float, numpy float64 / int64; datetime / Timestamp)
+        if j % 3 == 0:
+            return [['dt', D0 + 40 + j, 0], ['ts', D0 + 40 + j, 0]][i % 2]
+        return [j, float(j), ['np', 'float64', float(j)], ['np', 'int64', j]][(i + j) % 4]
+    if kind == 'num':
+        # numbers only: what a vectorised sort / grouping / take would accept, with values it cannot hold
+        return [100 * j + i, j + 0.5, 2 ** 53 + j, -0.0, ['nan', 0], 2 ** 63 + j, float(2 ** 53), 0.0, -(2 ** 63) - j, 1e16][(i + 3 * j) % 10]
     if kind == 'int':
         return 100 * j + i
     if kind == 'str':
@@ -196,7 +376,7 @@ def _permuted_records(draw):
     keys = draw(st.lists(_name, min_size=2, max_size=4, unique=True))
     n = draw(st.integers(2, 5))
     ragged = draw(st.sampled_from([False, False, False, True]))
-    kind = draw(st.sampled_from(['int', 'str', 'float', 'dt', 'mixed']))
+    kind = draw(st.sampled_from(['int', 'str', 'float', 'dt', 'mixed', 'raw', 'num']))
     recs = []
     for i in range(n):
         order = list(draw(st.permutations(keys)))
@@ -215,50 +395,68 @@ class Tables(object):
     OPS = {
         # ---- construction
         'new_records': dict(recs=_records, form=st.sampled_from(['list', 'data_kw', 'concat'])),
-        'new_columns': dict(cols=st.lists(st.tuples(_name, st.sampled_from(['list', 'list', 'scalar', 'len1', 'tuple']), _vals), max_size=4, unique_by=lambda c: c[0]),
-                            n=st.integers(0, 5), form=st.sampled_from(['dict', 'kw', 'split', 'pairs', 'data_kw'])),
+        'new_columns': dict(cols=st.lists(st.tuples(_name, st.sampled_from(['list', 'list', 'list', 'scalar', 'scalar', 'len1', 'len1', 'tuple', 'tuple', 'range', 'dvalues', 'strn', 'shared']), _vals),
+                                          max_size=4, unique_by=lambda c: c[0]),
+                            n=st.integers(0, 5), form=st.sampled_from(['dict', 'kw', 'split', 'pairs', 'data_kw']), dup=st.integers(0, 7)),
         'new_rows': dict(cols=_names, rows=st.lists(st.lists(_cell, min_size=4, max_size=4), max_size=5),
-                         form=st.sampled_from(['headers', 'columns_kw', 'first_row', 'tuples', 'zip'])),
+                         form=st.sampled_from(['headers', 'columns_kw', 'first_row', 'tuples', 'zip', 'tuple_headers']), dup=st.integers(0, 5)),
         'new_empty': dict(form=st.sampled_from(['none', 'cols_kw', 'headers', 'columns_only', 'dict', 'records']), cols=_names),
         'new_misfit': dict(cols=st.lists(_name, min_size=2, max_size=2, unique=True), la=st.sampled_from([0, 2, 3, 4]), lb=st.integers(2, 6),
                            form=st.sampled_from(['kw', 'dict'])),
         # ---- in place
         'setitem': dict(t=_t, col=_ci, new=st.booleans(), how=st.sampled_from(['item', 'attr', 'update']),
-                        mode=st.sampled_from(['fit', 'fit', 'scalar', 'len1', 'tuple', 'misfit']), vals=_vals, k=st.integers(0, 9)),
+                        mode=st.sampled_from(['fit', 'fit', 'fit', 'scalar', 'scalar', 'len1', 'len1', 'tuple', 'tuple', 'misfit', 'misfit', 'range', 'dvalues', 'strn']), vals=_vals, k=st.integers(0, 9)),
         'set_misfit': dict(t=_t, col=_ci, new=st.booleans(), how=st.sampled_from(['item', 'attr', 'update', 'update2']), vals=_vals, k=st.integers(0, 9)),
         'delcol': dict(t=_t, col=_ci, how=st.sampled_from(['item', 'attr'])),
         # ---- reading / selecting
-        'row': dict(t=_t, i=st.integers(0, 30), neg=st.booleans()),
+        'row': dict(t=_t, i=st.integers(0, 30), neg=st.booleans(), raw=st.sampled_from(['int', 'int', 'int', 'int64', 'int32'])),
         'slice': dict(t=_t, start=_sl, stop=_sl, step=_step),
         'mask': dict(t=_t, bits=st.integers(0, 2 ** MAXROWS - 1), mode=st.sampled_from(['bits', 'bits', 'bits', 'none', 'all']),
-                     form=st.sampled_from(['list', 'list', 'array'])),
-        'take': dict(t=_t, idx=st.lists(st.integers(-30, 30), max_size=6), form=st.sampled_from(['list', 'list', 'array', 'range'])),
+                     form=st.sampled_from(['list', 'list', 'list', 'array', 'array', 'mixed'])),
+        'take': dict(t=_t, idx=st.lists(st.integers(-30, 30), max_size=6), form=st.sampled_from(['list', 'list', 'list', 'array', 'array', 'range', 'range', 'mixed'])),
         'project': dict(t=_t, cols=st.lists(_ci, min_size=1, max_size=3), form=st.sampled_from(['list', 'tuple', 'and', 'and_extra', 'and_str', 'keys']),
-                        allow_empty=st.sampled_from([False, False, False, True])),
-        'minus': dict(t=_t, cols=st.lists(_ci, min_size=1, max_size=3), form=st.sampled_from(['str', 'list', 'list_extra', 'missing'])),
-        'filter': dict(t=_t, col=_ci, pick=st.integers(0, 30), v=_cell, use_v=st.booleans(), form=st.sampled_from(['inc', 'exc', 'inc_list', 'exc_list', 'inc_dict'])),
+                        allow_empty=st.sampled_from([False, False, False, True]), dup=st.sampled_from([False, False, False, True])),
+        'minus': dict(t=_t, cols=st.lists(_ci, min_size=1, max_size=3), form=st.sampled_from(['str', 'list', 'list_extra', 'missing']), dup=st.sampled_from([False, False, False, True])),
+        'filter': dict(t=_t, col=_ci, pick=st.integers(0, 30), v=_cell, use_v=st.booleans(), recast=st.sampled_from([0, 0, 0, 1, 2, 3]),
+                       form=st.sampled_from(['inc', 'inc', 'exc', 'exc', 'inc_list', 'inc_list', 'exc_list', 'exc_list', 'inc_dict', 'inc_dict', 'inc_list_n', 'inc_list_n', 'exc_list_n', 'exc_list_n', 'inc_tuple'])),
+        'filter_fn': dict(t=_t, fn=st.sampled_from(sorted(FN)), fn_b=st.sampled_from(sorted(FN)), cols=st.lists(_ci, min_size=1, max_size=2), cols_b=st.lists(_ci, min_size=1, max_size=2),
+                          shape=st.sampled_from(SHAPES), k=st.integers(0, 9), col=_ci, pick=st.integers(0, 30),
+                          form=st.sampled_from(['inc', 'exc', 'inc_two', 'inc_list', 'exc_two', 'inc_fn_value', 'inc_fn_value', 'exc_fn_value', 'inc_dict_fn'])),
+        'get': dict(t=_t, col=_ci, missing=st.booleans(), v=_cell, form=st.sampled_from(['get', 'get_default', 'get_default', 'get_default_kw'])),
         # ---- derived columns, renaming, per-column transforms
         'derive': dict(t=_t, fn=st.sampled_from(sorted(FN)), args=st.lists(_ci, min_size=1, max_size=3), tgt=_ci, new=st.booleans(),
-                       form=st.sampled_from(['getitem', 'call', 'call', 'chain', 'value']), mode=st.sampled_from(['fit', 'scalar', 'len1', 'misfit']),
-                       vals=_vals, k=st.integers(0, 9), fn2=st.sampled_from(sorted(F1))),
+                       form=st.sampled_from(['getitem', 'getitem', 'call', 'call', 'call', 'call', 'chain', 'chain', 'value', 'value', 'apply', 'apply_defaults', 'factory_pair', 'factory_pair', 'same_fn_two_keys', 'same_fn_twice']),
+                       mode=st.sampled_from(['fit', 'fit', 'scalar', 'scalar', 'len1', 'len1', 'misfit', 'misfit', 'range', 'strn']),
+                       vals=_vals, k=st.integers(0, 9), fn2=st.sampled_from(sorted(F1)), shape=st.sampled_from(SHAPES)),
         'rename': dict(t=_t, col=_ci, form=st.sampled_from(['kw', 'relabel_kw', 'dict', 'prefix', 'suffix', 'func', 'list'])),
         'do': dict(t=_t, fn=st.sampled_from(sorted(F1)), fn2=st.sampled_from(sorted(F1)), f2=st.sampled_from(sorted(F2)), cols=st.lists(_ci, min_size=1, max_size=3), other=_ci,
-                   form=st.sampled_from(['all', 'args', 'list', 'empty_list', 'two_fns', 'with_other'])),
+                   form=st.sampled_from(['all', 'args', 'list', 'empty_list', 'two_fns', 'two_fns', 'with_other', 'with_other']), shape=st.sampled_from(DO_SHAPES), k=st.integers(0, 9)),
         # ---- concatenation
         'concat': dict(ts=st.lists(_t, min_size=1, max_size=3), form=st.sampled_from(['add', 'add', 'concat_args', 'concat_list', 'sum_start', 'sum0',
-                                                                                      'reordered_add', 'reordered_concat_args', 'reordered_concat_list', 'reordered_sum_start'])),
-        'add_record': dict(t=_t, rec=_record, rec2=_record, src=_t, i=st.integers(0, 30), form=st.sampled_from(['dict', 'Dict', 'row_of', 'concat', 'records', 'records_perm', 'concat_perm', 'sum_perm'])),
+                                                                                      'reordered_add', 'reordered_concat_args', 'reordered_concat_list', 'reordered_sum_start']),
+                       dup=st.sampled_from([False, False, False, False, True])),
+        'add_record': dict(t=_t, rec=_record, rec2=_record, src=_t, i=st.integers(0, 30),
+                           form=st.sampled_from(['dict', 'Dict', 'row_of', 'row_of_self', 'concat', 'records', 'records_same', 'records_perm', 'concat_perm', 'sum_perm'])),
         'add_none': dict(t=_t, form=st.sampled_from(['none', 'zero', 'rnone', 'rzero', 'zero_float'])),
         'copy': dict(t=_t, form=st.sampled_from(['copy', 'inc', 'exc', 'ctor', 'copy_module', 'full_slice'])),
         # ---- augmented assignment: the statement  d += x  (d -= cols, d &= cols, d |= {col: values}); the pool gets whatever the statement leaves in the variable
         'iadd_record': dict(t=_t, rec=_record, rec2=_record, src=_t, i=st.integers(0, 30), form=st.sampled_from(['dict', 'dict', 'Dict', 'row_of', 'records', 'records_perm'])),
-        'iadd_table': dict(t=_t, t2=_t),
+        'iadd_table': dict(t=_t, t2=_t, same=st.sampled_from([False, False, False, True])),
         'iadd_none': dict(t=_t, form=st.sampled_from(['none', 'zero'])),
         'iop_cols': dict(t=_t, cols=st.lists(_ci, min_size=1, max_size=3), form=st.sampled_from(['isub_str', 'isub_list', 'iand_list', 'iand_extra', 'iand_str'])),
-        'ior': dict(t=_t, col=_ci, new=st.booleans(), mode=st.sampled_from(['fit', 'scalar', 'len1', 'misfit']), vals=_vals, k=st.integers(0, 9), allow_raw=st.just(True)),
+        'ior': dict(t=_t, col=_ci, new=st.booleans(), mode=st.sampled_from(['fit', 'fit', 'scalar', 'scalar', 'len1', 'len1', 'misfit', 'misfit', 'range', 'strn']), vals=_vals, k=st.integers(0, 9), allow_raw=st.just(True)),
         # ---- integer-list selection, deletion of a column that is not the last one, integer-list selection again (on one table)
         'reselect': dict(t=_t, idx=st.lists(st.integers(-30, 30), min_size=1, max_size=5), col=_ci, how=st.sampled_from(['item', 'attr']),
                          idx2=st.lists(st.integers(-30, 30), min_size=1, max_size=5), form=st.sampled_from(['list', 'list', 'array'])),
+        # ---- one read, an in-place change of the same table, the same read again (state that outlives an update); the function objects are the same ones both times
+        'reread': dict(t=_t, read=st.sampled_from(['take', 'mask', 'project', 'tuple', 'inc', 'exc', 'fn', 'call', 'do', 'slice', 'rename', 'minus', 'self_add', 'add_record', 'apply']),
+                       upd=st.sampled_from(['set_existing', 'set_existing', 'set_new', 'attr', 'update', 'delcol', 'delcol', 'delattr']),
+                       idx=st.lists(st.integers(-30, 30), min_size=1, max_size=5), cols=st.lists(_ci, min_size=1, max_size=3), bits=st.integers(0, 2 ** MAXROWS - 1),
+                       col=_ci, pick=st.integers(0, 30), fn=st.sampled_from(sorted(FN)), fn1=st.sampled_from(sorted(F1)), vals=_vals, k=st.integers(0, 9)),
+        # ---- ONE argument container handed to several calls in a row (first with extra keywords, then on its own): later calls are judged by its original content
+        'shared_arg': dict(t=_t, t2=_t, form=st.sampled_from(['ctor_dict', 'inc_dict', 'exc_dict', 'rename_dict', 'records', 'cols_list', 'update_dict', 'values']),
+                           cols=st.lists(_ci, min_size=1, max_size=3), names=_names, rec=_record, rec2=_record, vals=_vals, vals2=_vals, k=st.integers(0, 9), col=_ci, pick=st.integers(0, 30),
+                           fn1=st.sampled_from(sorted(F1))),
     }
     _CTORS = ('new_records', 'new_columns', 'new_rows', 'new_empty', 'new_misfit')
     PRE = {}
@@ -266,7 +464,7 @@ class Tables(object):
         if _op not in _CTORS:
             PRE[_op] = lambda m: len(m.pool) > 0
     PRE['row'] = lambda m: any(e['m'].n > 0 for e in m.pool)
-    for _op in ('delcol', 'project', 'filter', 'derive', 'iop_cols'):
+    for _op in ('delcol', 'project', 'filter', 'derive', 'iop_cols', 'filter_fn', 'reread'):
         PRE[_op] = lambda m: any(e['m'].cols for e in m.pool)
     PRE['reselect'] = lambda m: any(len(e['m'].cols) >= 2 for e in m.pool)
     del _op
@@ -278,6 +476,7 @@ class Tables(object):
         self.ops_used = []
         self.consumed = False   # some table produced by one rule was consumed by another rule
         self.skipped = 0
+        self.fns = {}           # function objects of this history: the same request gets the same OBJECT again
 
     # ------------------------------------------------------------------ helpers
     def _pick(self, t, pred=None):
@@ -357,6 +556,12 @@ class Tables(object):
         cells = [build(v) for v in vals]
         if mode == 'scalar':
             return cells[0], [cells[0]], True
+        if mode == 'strn':
+            sv = 'abcdefghijklmnopqrstuvwxyz'[:n]       # a string of exactly len(d) characters is ONE cell
+            return sv, [sv], True
+        if mode == 'range':
+            ln = n if ncols > 0 else k % 7
+            return range(ln), list(range(ln)), True
         if mode == 'len1':
             return [cells[0]], [cells[0]], True
         if mode == 'misfit' and ncols > 0:
@@ -368,7 +573,36 @@ class Tables(object):
         v = [cells[i % len(cells)] for i in range(ln)]
         if mode == 'tuple':
             return tuple(v), list(v), True
+        if mode == 'dvalues':
+            return dict(enumerate(v)).values(), list(v), True
         return v, list(v), True
+
+    def _value_flags(self, mode, n, ncols):
+        if mode == 'strn' and n >= 2 and ncols > 0:
+            self.flags.add('str_len_n_scalar')
+        if mode in ('range', 'dvalues'):
+            self.flags.add('range_value')
+        if mode in ('scalar', 'len1', 'strn') and n != 1 and ncols > 0:
+            self.flags.add('broadcast')
+
+    def _verify(self, what, res, m):
+        """a result table against a model, without taking it into the pool"""
+        from pyg_base import dictable
+        check(isinstance(res, dictable), '%s returned %s, not a dictable', what, type(res).__name__)
+        store = raw(res)
+        ok = set(store) == set(m.cols) and all(isinstance(store[c], list) and same_list(store[c], m.col(c)) for c in m.cols)
+        check(ok, '%s = %s, the model says columns %s rows %s', what, store, m.cols, m.rows)
+
+    def _fn(self, key, make):
+        """the function object for `key`: built once per history, the same object afterwards"""
+        if key in self.fns:
+            self.flags.add('fn_object_reused')
+        else:
+            self.fns[key] = make()
+        return self.fns[key]
+
+    def _unfrozen(self, what, x, before):
+        check(_freeze(x) == before, '%s altered an argument container of its caller: now %s', what, short(x, 200))
 
     @staticmethod
     def _assign_model(m, c, cells):
@@ -415,26 +649,59 @@ class Tables(object):
               'construction from records altered the records: %s, were %s', arg, recs)
         self._add('new_records', d, m)
 
-    def op_new_columns(self, cols, n, form):
+    def op_new_columns(self, cols, n, form, dup=0):
         from pyg_base import dictable
         self._begin('new_columns')
-        has_list = any(kind in ('list', 'tuple') for _, kind, _ in cols)
-        n_eff = (n if has_list else 1) if cols else 0
+        SEQ = ('list', 'tuple', 'range', 'dvalues', 'shared')
+        entries = [[c, kind, vals] for c, kind, vals in cols]
+        if dup == 1 and entries:
+            # pairs naming one column twice: the later pair replaces the earlier (as in a record)
+            form = 'pairs'
+            entries.append([entries[0][0], ['list', 'scalar', 'tuple'][n % 3], list(reversed(entries[0][2]))])
+            self.flags.add('duplicate_labels')
+        kinds = {}
+        for c, kind, _ in entries:
+            kinds[c] = kind
+        has_list = any(kind in SEQ for kind in kinds.values())
+        n_eff = (n if has_list else 1) if entries else 0
         args = []
         model = []
-        for c, kind, vals in cols:
+        last_list = None
+        for j, (c, kind, vals) in enumerate(entries):
             cells = [build(v) for v in vals]
+            live = not any(x[0] == c for x in entries[j + 1:])      # not replaced by a later pair
             if kind == 'scalar':
                 args.append((c, cells[0]))
                 model.append((c, [cells[0]] * n_eff))
             elif kind == 'len1':
                 args.append((c, [cells[0]]))
                 model.append((c, [cells[0]] * n_eff))
+            elif kind == 'strn':
+                sv = c[:1] * n                       # a string as long as the lists next to it is still one cell
+                args.append((c, sv))
+                model.append((c, [sv] * n_eff))
+                if has_list and n >= 2 and live:
+                    self.flags.add('str_len_n_scalar')
+            elif kind == 'range':
+                args.append((c, range(n)))
+                model.append((c, list(range(n))))
+                self.flags.add('range_value')
+            elif kind == 'shared' and last_list is not None:
+                args.append((c, last_list))          # ONE list object given as two columns
+                model.append((c, list(last_list)))
+                self.flags.add('shared_column_list')
             else:
                 v = [cells[i % len(cells)] for i in range(n)]
-                args.append((c, tuple(v) if kind == 'tuple' else v))
+                if kind == 'tuple':
+                    args.append((c, tuple(v)))
+                elif kind == 'dvalues':
+                    args.append((c, dict(enumerate(v)).values()))
+                    self.flags.add('range_value')
+                else:
+                    args.append((c, v))
+                    last_list = v
                 model.append((c, list(v)))
-            if kind in ('scalar', 'len1') and n_eff != 1:
+            if kind in ('scalar', 'len1', 'strn') and n_eff != 1 and live:
                 self.flags.add('broadcast')
         m = T.from_columns(model)
         if form == 'pairs' and not args:
@@ -452,16 +719,25 @@ class Tables(object):
             d = self._pure('dictable(%s, **%s)' % (short(dict(args[:h]), 80), short(dict(args[h:]), 80)), lambda: dictable(dict(args[:h]), **dict(args[h:])))
         self._add('new_columns', d, m)
 
-    def op_new_rows(self, cols, rows, form):
+    def op_new_rows(self, cols, rows, form, dup=0):
         from pyg_base import dictable
         self._begin('new_rows')
+        cols = list(cols)
         k = len(cols)
+        if dup == 1 and k >= 2:
+            cols[-1 if len(rows) % 2 else 1] = cols[0]      # a header naming one column twice: the later cell of a row replaces the earlier (a record has one value per key)
+            self.flags.add('duplicate_labels')
+            if form == 'zip':
+                form = 'tuples'
         rows = [[build(v) for v in r[:k]] for r in rows]
         m = T(cols, [dict(zip(cols, r)) for r in rows])
         if form == 'first_row' and not rows:
             form = 'headers'
         if form == 'zip' and not rows:
             form = 'headers'
+        if form == 'tuple_headers':
+            d = self._pure('dictable(%s, %s)' % (short(rows, 120), tuple(cols)), dictable, [list(r) for r in rows], tuple(cols))
+            return self._add('new_rows', d, m)
         if form == 'headers':
             d = self._pure('dictable(%s, %s)' % (short(rows, 120), cols), dictable, [list(r) for r in rows], list(cols))
         elif form == 'columns_kw':
@@ -518,6 +794,7 @@ class Tables(object):
         d, m = e['d'], e['m']
         c = self._fresh(e, col) if (new or not m.cols) else m.cols[col % len(m.cols)]
         value, cells, fits = self._value(mode, vals, m.n, len(m.cols), k)
+        self._value_flags(mode, m.n, len(m.cols))
         what = {'item': 'd[%r] = %s', 'attr': 'd.%s = %s', 'update': 'd.update({%r: %s})'}[how] % (c, short(value, 100))
         what = '%s on %s' % (what, short(raw(d), 150))
         if how == 'item':
@@ -601,7 +878,7 @@ class Tables(object):
         e['gen'] += 1
 
     # ------------------------------------------------------------------ reading / selecting
-    def op_row(self, t, i, neg):
+    def op_row(self, t, i, neg, raw='int'):
         self._begin('row')
         e = self._pick(t, lambda e: e['m'].n > 0)
         if e is None:
@@ -611,7 +888,12 @@ class Tables(object):
         i = i % m.n
         if neg:
             i = i - m.n
-        rec = self._pure('d[%i] on %s' % (i, short(raw(d), 150)), d.__getitem__, i)
+        item = i
+        if raw != 'int':
+            import numpy as np
+            item = getattr(np, raw)(i)
+            self.flags.add('raw_index_types')
+        rec = self._pure('d[%r] on %s' % (item, short(_raw(d), 150)), d.__getitem__, item)
         check(isinstance(rec, dict), 'd[%s] returned %s', i, type(rec).__name__)
         exp = m.rows[i]
         check(set(dict.keys(rec)) == set(exp) and all(same(dict.__getitem__(rec, c), exp[c]) for c in exp), 'd[%s] = %s, the model row is %s', i, dict(rec), exp)
@@ -644,6 +926,11 @@ class Tables(object):
         if form == 'array':
             import numpy as np
             item = np.array(bits, dtype=bool)
+        elif form == 'mixed':
+            import numpy as np
+            item = [np.bool_(b) if j % 2 else b for j, b in enumerate(bits)]     # bool and numpy.bool_ in one mask
+            if len(item) >= 2:
+                self.flags.add('raw_index_types')
         else:
             item = list(bits)
         res = self._pure('d[%s] on %s' % (short(item, 100), short(raw(d), 150)), d.__getitem__, item)
@@ -677,6 +964,11 @@ class Tables(object):
         elif form == 'array':
             import numpy as np
             item = np.array(idx, dtype=int)
+        elif form == 'mixed':
+            import numpy as np
+            item = [[np.int64, int, np.int32][j % 3](i) for j, i in enumerate(idx)]     # python and numpy integers in one list
+            if len(item) >= 2:
+                self.flags.add('raw_index_types')
         else:
             item = list(idx)
         res = self._pure('d[%s] on %s' % (short(item, 100), short(raw(d), 150)), d.__getitem__, item)
@@ -684,7 +976,7 @@ class Tables(object):
         if len(set(i % n for i in idx)) < len(idx):
             self.flags.add('repeated_rows')
 
-    def op_project(self, t, cols, form, allow_empty=False):
+    def op_project(self, t, cols, form, allow_empty=False, dup=False):
         self._begin('project')
         e = self._pick(t, lambda e: e['m'].cols)
         if e is None:
@@ -700,23 +992,27 @@ class Tables(object):
             check(isinstance(res, list) and len(res) == len(exp) and all(isinstance(x, tuple) and same_list(list(x), list(y)) for x, y in zip(res, exp)),
                   'd[%s] = %s, the model says %s', tuple(cs), res, exp)
             return
+        twice = list(cs)
+        if dup and form in ('list', 'and', 'and_extra'):
+            twice = cs + [cs[0]]                 # a column named twice is selected once
+            self.flags.add('duplicate_labels')
         if form == 'list':
-            res = self._pure('d[%s] on %s' % (cs, rd), d.__getitem__, list(cs))
+            res = self._pure('d[%s] on %s' % (twice, rd), d.__getitem__, list(twice))
         elif form == 'keys':
             res = self._pure('d[dict_keys(%s)] on %s' % (cs, rd), d.__getitem__, dict.fromkeys(cs).keys())
         elif form == 'and_str':
             cs = cs[:1]
             res = self._pure('d & %r on %s' % (cs[0], rd), lambda: d & cs[0])
         elif form == 'and_extra':
-            other = [self._fresh(e, 3)] + cs + [self._fresh(e, 5)]
+            other = [self._fresh(e, 3)] + twice + [self._fresh(e, 5)]
             if allow_empty:
                 other, cs = [self._fresh(e, 3)], []
             res = self._pure('d & %s on %s' % (other, rd), lambda: d & other)
         else:
-            res = self._pure('d & %s on %s' % (cs, rd), lambda: d & list(cs))
+            res = self._pure('d & %s on %s' % (twice, rd), lambda: d & list(twice))
         self._add('project', res, T(cs, m.rows), [e])
 
-    def op_minus(self, t, cols, form):
+    def op_minus(self, t, cols, form, dup=False):
         self._begin('minus')
         e = self._pick(t)
         if e is None:
@@ -735,33 +1031,63 @@ class Tables(object):
             arg = cs + [self._fresh(e, 1)]
         else:
             arg = list(cs)
+        if dup and isinstance(arg, list) and cs:
+            arg = arg + [cs[0]]                  # removing a column twice removes it once
+            self.flags.add('duplicate_labels')
         res = self._pure('d - %r on %s' % (arg, rd), lambda: d - arg)
         self._add('minus', res, T([c for c in m.cols if c not in cs], m.rows), [e])
 
-    def op_filter(self, t, col, pick, v, use_v, form):
+    def op_filter(self, t, col, pick, v, use_v, form, recast=0):
         self._begin('filter')
         e = self._pick(t, lambda e: e['m'].cols)
         if e is None:
             return self._skip()
+        if pick % 2 == 0 and form in ('inc', 'exc', 'inc_dict'):
+            e = self._pick(t, lambda e: any(_isnan(y) for c in e['m'].cols for y in e['m'].col(c))) or e
         self._use('filter', e)
         d, m = e['d'], e['m']
         c = m.cols[col % len(m.cols)]
         column = m.col(c)
         v = build(v)
-        if column and not use_v:
+        nans = [x for x in m.cols if any(_isnan(y) for y in m.col(x))]
+        if nans and pick % 2 == 0 and form in ('inc', 'exc', 'inc_dict'):
+            # a column holding NaN, filtered by a NaN that is another object than the cells: keeps / drops every NaN row
+            c = nans[col % len(nans)]
+            column = m.col(c)
+            v = float('nan')
+            self.flags.add('filter_by_nan')
+        elif column and not use_v:
             v = column[pick % len(column)]
+            if recast:
+                # the value of a cell of the column, written in another raw type (1 -> 1.0 -> numpy.float64(1.0) -> numpy.int64(1); datetime <-> Timestamp)
+                for x in [v] + [x for x in column if x is not v]:
+                    alt = _recast(x, recast)
+                    if alt is not x:        # this cell has another spelling
+                        v = alt
+                        break
         rd = short(raw(d), 150)
 
-        def hit(x, values):
-            return any(x is y or x == y for y in values)
+        hit = _hit
         if form in ('inc', 'exc', 'inc_dict'):
-            keep = [(r[c] is None) if v is None else hit(r[c], [v]) for r in m.rows]
+            keep = [_cond(r[c], v) for r in m.rows]
             arg = v
+            if _isnan(v):
+                self.flags.add('nan_cells')
+        elif form in ('inc_list_n', 'exc_list_n'):
+            # a list of values exactly as long as the table, holding 0 / 1: still a list of values, not a mask
+            values = ([v, 1, 0, column[(pick + 1) % len(column)] if column else 1] * (m.n + 1))[:max(m.n, 1)]
+            keep = [hit(r[c], values) for r in m.rows]
+            arg = list(values)
+            if m.n >= 2:
+                self.flags.add('filter_list_len_n')
         else:
             values = [v] + ([column[(pick + 1) % len(column)]] if column else [])
             keep = [hit(r[c], values) for r in m.rows]
-            arg = list(values)
-        if form in ('inc', 'inc_list'):
+            arg = tuple(values) if form == 'inc_tuple' else list(values)
+        met = [r[c] for r, b in zip(m.rows, keep) if b]
+        if any(type(x) is not type(y) and bool(x == y) for x in met for y in met + (list(arg) if isinstance(arg, (list, tuple)) else [arg])):
+            self.flags.add('raw_types_same_value')      # one value of the condition is met by cells of different raw types
+        if form in ('inc', 'inc_list', 'inc_list_n', 'inc_tuple'):
             res = self._pure('d.inc(%s = %r) on %s' % (c, arg, rd), lambda: d.inc(**{c: arg}))
         elif form == 'inc_dict':
             res = self._pure('d.inc({%r: %r}) on %s' % (c, arg, rd), lambda: d.inc({c: arg}))
@@ -774,7 +1100,7 @@ class Tables(object):
         self._add('filter', res, newm, [e])
 
     # ------------------------------------------------------------------ derived columns, renaming, per-column transforms
-    def op_derive(self, t, fn, args, tgt, new, form, mode, vals, k, fn2):
+    def op_derive(self, t, fn, args, tgt, new, form, mode, vals, k, fn2, shape='plain'):
         self._begin('derive')
         e = self._pick(t, lambda e: e['m'].cols)
         if e is None:
@@ -783,15 +1109,63 @@ class Tables(object):
         d, m = e['d'], e['m']
         rd = short(raw(d), 150)
         names = self._cols_of(e, args)
-        f = _named(names, FN[fn])
-        column = [FN[fn](*[r[a] for a in names]) for r in m.rows]
-        if form == 'getitem':
-            res = self._pure('d[lambda %s: %s] on %s' % (', '.join(names), fn, rd), d.__getitem__, f)
-            check(isinstance(res, list) and same_list(res, column), 'd[lambda %s: %s] = %s, the model says %s', ', '.join(names), fn, res, column)
+        if form not in ('getitem', 'call', 'apply', 'same_fn_two_keys', 'same_fn_twice'):
+            shape = 'plain'
+        f, names, ref = self._fn(('derive', shape, tuple(names), fn, m.n, tuple(m.cols), k),
+                                 lambda: _shaped(names, FN[fn], shape, m.n, m.cols, k))
+        column = [ref(r) for r in m.rows]
+        sig = '%s(%s)' % (shape, ', '.join(names))
+        if shape != 'plain':
+            self.flags.add('fn_shape')
+            self.flags.add('fn_shape=' + shape)
+        if form in ('getitem', 'apply'):
+            if form == 'getitem':
+                res = self._pure('d[lambda %s: %s] on %s' % (sig, fn, rd), d.__getitem__, f)
+            else:
+                res = self._pure('d.apply(lambda %s: %s) on %s' % (sig, fn, rd), d.apply, f)
+            check(isinstance(res, list) and same_list(res, column), 'd[lambda %s: %s] = %s, the model says %s', sig, fn, res, column)
+            return
+        if form == 'apply_defaults':
+            # d.apply(f, **defaults): a default whose name is a column loses against the column, another one is used as it is
+            absent = self._fresh(e, tgt)
+            present = names[-1]
+            g = eval('lambda %s, %s: _fn(%s) if %s is _D else "LEAK"' % (', '.join(names), absent, ', '.join(names), absent), {'_fn': FN[fn], '_D': ASDEFAULT})
+            defaults = {absent: ASDEFAULT, present: 'LOST'}
+            res = self._pure('d.apply(lambda %s, %s: %s, **%s) on %s' % (', '.join(names), absent, fn, defaults, rd), lambda: d.apply(g, **defaults))
+            check(isinstance(res, list) and same_list(res, column), 'd.apply(lambda %s, %s: %s, **%s) = %s, the model says %s', ', '.join(names), absent, fn, defaults, res, column)
+            self.flags.add('optional_params')
             return
         c = self._fresh(e, tgt) if new else m.cols[tgt % len(m.cols)]
+        if form in ('same_fn_two_keys', 'same_fn_twice'):
+            # ONE function object for two keys (in one call / in two calls, the second on the result of the first)
+            c1 = self._fresh(e, tgt)
+            c2 = self._fresh(e, tgt + 1, avoid=[c1])
+            rows = [dict(r, **{c1: x, c2: x}) for r, x in zip(m.rows, column)]
+            if form == 'same_fn_two_keys':
+                res = self._pure('d(%s = f, %s = f) with f = lambda %s: %s on %s' % (c1, c2, sig, fn, rd), lambda: d(**{c1: f, c2: f}))
+            else:
+                first = self._pure('d(%s = f) with f = lambda %s: %s on %s' % (c1, sig, fn, rd), lambda: d(**{c1: f}))
+                self._verify('d(%s = lambda %s: %s) on %s' % (c1, sig, fn, rd), first, self._assign_model(m, c1, column))
+                res = self._pure('d(%s = f)(%s = f) with f = lambda %s: %s on %s' % (c1, c2, sig, fn, rd), lambda: first(**{c2: f}))
+                again = self._pure('d(%s = f)(%s = f)[f] with f = lambda %s: %s on %s' % (c1, c2, sig, fn, rd), res.__getitem__, f)
+                check(isinstance(again, list) and same_list(again, column), 'd(..)[lambda %s: %s] = %s, the model says %s', sig, fn, again, column)
+            self._add('derive', res, T(m.cols + [c1, c2], rows), [e])
+            self.flags.add('fn_object_reused')
+            return
+        if form == 'factory_pair':
+            # two functions made by one factory: one code object, two closures
+            make = _factory(names)
+            g1, g2 = make(FN[fn]), make(lambda *a: F1[fn2](a[0]))
+            c1 = self._fresh(e, tgt)
+            c2 = self._fresh(e, tgt + 1, avoid=[c1])
+            second = [F1[fn2](r[names[0]]) for r in m.rows]
+            res = self._pure('d(%s = make(%s), %s = make(%s)) of (%s) on %s' % (c1, fn, c2, fn2, ', '.join(names), rd), lambda: d(**{c1: g1, c2: g2}))
+            rows = [dict(r, **{c1: x, c2: y}) for r, x, y in zip(m.rows, column, second)]
+            self._add('derive', res, T(m.cols + [c1, c2], rows), [e])
+            self.flags.add('fn_factory_pair')
+            return
         if form == 'call':
-            res = self._pure('d(%s = lambda %s: %s) on %s' % (c, ', '.join(names), fn, rd), lambda: d(**{c: f}))
+            res = self._pure('d(%s = lambda %s: %s) on %s' % (c, sig, fn, rd), lambda: d(**{c: f}))
             self._add('derive', res, self._assign_model(m, c, column), [e])
         elif form == 'chain':
             c1 = self._fresh(e, tgt)
@@ -806,6 +1180,7 @@ class Tables(object):
             self.flags.add('derive_chain')
         else:
             value, cells, fits = self._value(mode, vals, m.n, len(m.cols), k)
+            self._value_flags(mode, m.n, len(m.cols))
             what = 'd(%s = %s) on %s' % (c, short(value, 100), rd)
             if fits:
                 res = self._pure(what, lambda: d(**{c: value}))
@@ -862,7 +1237,7 @@ class Tables(object):
         rows = [{mapping.get(c, c): v for c, v in r.items()} for r in m.rows]
         self._add('rename', res, T(cols, rows), [e])
 
-    def op_do(self, t, fn, fn2, f2, cols, other, form):
+    def op_do(self, t, fn, fn2, f2, cols, other, form, shape='plain', k=0):
         self._begin('do')
         e = self._pick(t)
         if e is None:
@@ -871,7 +1246,10 @@ class Tables(object):
         d, m = e['d'], e['m']
         rd = short(raw(d), 150)
         f = F1[fn]
-        fv = lambda value: f(value)
+        fv = self._fn(('do1', shape, fn, m.n, tuple(m.cols), k), lambda: _shaped_do1(f, shape, m.n, m.cols, k))
+        if shape != 'plain':
+            self.flags.add('fn_shape')
+            self.flags.add('fn_shape=' + shape)
         cs = self._cols_of(e, cols) if m.cols else []
         if form == 'with_other' and len(m.cols) < 2:
             form = 'args'
@@ -890,28 +1268,39 @@ class Tables(object):
         elif form == 'empty_list':
             res = self._pure('d.do(%s, []) on %s' % (fn, rd), d.do, fv, [])
         elif form == 'two_fns':
-            g = F1[fn2]
             c = cs[0]
+            if k % 3:
+                for cand in sorted(F1):
+                    if any(not same(F1[cand](f(r[c])), f(F1[cand](r[c]))) for r in rows):
+                        fn2 = cand          # a second function that does not commute with the first on this column
+                        break
+            g = F1[fn2]
             res = self._pure('d.do([%s, %s], %r) on %s' % (fn, fn2, c, rd), d.do, [fv, lambda value: g(value)], c)
-            rows = [{k: (g(f(v)) if k == c else v) for k, v in r.items()} for r in rows]
+            if any(not same(g(f(r[c])), f(g(r[c]))) for r in rows):
+                self.flags.add('do_fns_order_matters')      # the functions do not commute on this column: the order of the list is visible
+            rows = [{x: (g(f(v)) if x == c else v) for x, v in r.items()} for r in rows]
         else:
             o = m.cols[other % len(m.cols)]
             cs = [c for c in cs if c != o]
             if not cs:
                 cs = [c for c in m.cols if c != o][:1]
             h = F2[f2]
-            hf = eval('lambda value, %s: _h(value, %s)' % (o, o), {'_h': h})
-            res = self._pure('d.do(lambda value, %s: %s, *%s) on %s' % (o, f2, cs, rd), d.do, hf, *cs)
+            hf = _shaped_do(h, o, shape, m.n, m.cols, k)
+            res = self._pure('d.do(lambda %s(value, %s): %s, *%s) on %s' % (shape, o, f2, cs, rd), d.do, hf, *cs)
             rows = [{c: (h(v, r[o]) if c in cs else v) for c, v in r.items()} for r in rows]
         self._add('do', res, T(m.cols, rows), [e])
 
     # ------------------------------------------------------------------ concatenation
-    def op_concat(self, ts, form):
+    def op_concat(self, ts, form, dup=False):
         from pyg_base import dictable
         self._begin('concat')
         es = [self._pick(t) for t in ts]
         if not es or es[0] is None:
             return self._skip()
+        if dup and len(es) >= 2:
+            es[-1] = es[0]          # the same table OBJECT at both ends
+        elif dup:
+            es = [es[0], es[0]]
         reorder = form.startswith('reordered_')
         if reorder:
             form = form[len('reordered_'):]
@@ -949,6 +1338,8 @@ class Tables(object):
             res = self._pure(what, lambda: sum(list(ds)))
         if len(set(tuple(sorted(e['m'].cols)) for e in es)) > 1:
             self.flags.add('concat_diffcols')
+        if len(set(id(x) for x in ds)) < len(ds) and len(ds[0]) > 0:
+            self.flags.add('same_object_twice')
         orders = set(tuple(dict.keys(x)) for x in ds)
         if len(orders) > len(set(tuple(sorted(o)) for o in orders)):
             self.flags.add('concat_same_cols_different_order')
@@ -966,7 +1357,14 @@ class Tables(object):
         rd = short(raw(d), 150)
         operands = [e]
         r = {c: build(v) for c, v in rec}
-        if form == 'row_of':
+        if form == 'row_of_self':
+            form = 'row_of' if m.n > 0 else 'dict'
+            if m.n > 0:
+                s = e
+                operands.append(s)
+                r = dict(m.rows[i % m.n])
+                self.flags.add('same_object_twice')
+        elif form == 'row_of':
             s = self._pick(src, lambda e: e['m'].n > 0)
             if s is None:
                 form = 'dict'
@@ -989,6 +1387,13 @@ class Tables(object):
             rm = T.from_records([r, r2])
             self._records_classes([r, r2])
             res = self._pure('d + %s on %s' % ([r, r2], rd), lambda: d + [dict(r), dict(r2)])
+        elif form == 'records_same':
+            # ONE record object twice in the list
+            rm = T.from_records([r, r])
+            one = dict(r)
+            res = self._pure('d + [r, r] with r = %s on %s' % (r, rd), lambda: d + [one, one])
+            if r:
+                self.flags.add('same_object_twice')
         else:
             # two records over the same keys, the second written in another key order, cells distinguishable per column
             keys = list(r)
@@ -1084,9 +1489,13 @@ class Tables(object):
         self.flags.add('iadd')
         self._augmented('iadd_record', e, 'd += %s on %s' % (short(x, 120), rd), lambda: operator.iadd(d, x), T.concat([m, rm]), operands)
 
-    def op_iadd_table(self, t, t2):
+    def op_iadd_table(self, t, t2, same=False):
         self._begin('iadd_table')
         e, o = self._pick(t), self._pick(t2)
+        if same:
+            o = e
+        if e is not None and o is e and e['m'].n > 0:
+            self.flags.add('same_object_twice')
         if e is None or e['m'].n + o['m'].n > MAXROWS:
             return self._skip()
         self._use('iadd_table', e, o)
@@ -1139,6 +1548,7 @@ class Tables(object):
             mode = 'fit'
         c = self._fresh(e, col) if (new or not m.cols) else m.cols[col % len(m.cols)]
         value, cells, fits = self._value(mode, vals, m.n, len(m.cols), k)
+        self._value_flags(mode, m.n, len(m.cols))
         what = 'd |= {%r: %s} on %s' % (c, short(value, 100), short(raw(d), 150))
         if fits:
             self._augmented('ior', e, what, lambda: operator.ior(d, {c: value}), self._assign_model(m, c, cells), [e])
@@ -1205,8 +1615,351 @@ class Tables(object):
             res = self._pure('copy.copy(d) on %s' % rd, _copy.copy, d)
         self._add('copy', res, m.copy(), [e])
 
+    # ------------------------------------------------------------------ rows selected by predicates; d.get
+    def op_filter_fn(self, t, fn, fn_b, cols, cols_b, shape, k, col, pick, form):
+        """inc / exc with predicate functions (judged by truthiness), alone, several at once, and together with a value condition"""
+        self._begin('filter_fn')
+        e = self._pick(t, lambda e: e['m'].cols)
+        if e is None:
+            return self._skip()
+        self._use('filter_fn', e)
+        d, m = e['d'], e['m']
+        rd = short(raw(d), 150)
+        names = self._cols_of(e, cols)
+        f, names, ref = self._fn(('pred', shape, tuple(names), fn, m.n, tuple(m.cols), k), lambda: _shaped(names, FN[fn], shape, m.n, m.cols, k))
+        names_b = self._cols_of(e, cols_b)
+        g, names_b, ref_b = self._fn(('pred', 'plain', tuple(names_b), fn_b, m.n, tuple(m.cols), k), lambda: _shaped(names_b, FN[fn_b], 'plain'))
+        if shape != 'plain':
+            self.flags.add('fn_shape')
+            self.flags.add('fn_shape=' + shape)
+        yes = [bool(ref(r)) for r in m.rows]
+        yes_b = [bool(ref_b(r)) for r in m.rows]
+        c = m.cols[col % len(m.cols)]
+        column = m.col(c)
+        v = column[pick % len(column)] if column else 0
+        cond = [_cond(r[c], v) for r in m.rows]
+        sig = 'lambda %s(%s): %s' % (shape, ', '.join(names), fn)
+        sig_b = 'lambda %s: %s' % (', '.join(names_b), fn_b)
+        if form in ('inc_fn_value', 'inc_dict_fn') and not any(yes) and not INCLUDE_FN_THEN_VALUE_EMPTY:
+            form = 'inc'            # the predicate keeps no row and a value condition follows: KeyError in pyg-base (finding), generated on request only
+        if form == 'inc':
+            res = self._pure('d.inc(%s) on %s' % (sig, rd), d.inc, f)
+            keep = yes
+        elif form == 'exc':
+            res = self._pure('d.exc(%s) on %s' % (sig, rd), d.exc, f)
+            keep = [not a for a in yes]
+        elif form == 'inc_two':
+            res = self._pure('d.inc(%s, %s) on %s' % (sig, sig_b, rd), d.inc, f, g)
+            keep = [a and b for a, b in zip(yes, yes_b)]
+        elif form == 'inc_list':
+            res = self._pure('d.inc([%s, %s]) on %s' % (sig, sig_b, rd), d.inc, [f, g])
+            keep = [a and b for a, b in zip(yes, yes_b)]
+        elif form == 'exc_two':
+            res = self._pure('d.exc(%s, %s) on %s' % (sig, sig_b, rd), d.exc, f, g)
+            keep = [not a and not b for a, b in zip(yes, yes_b)]
+        elif form == 'inc_fn_value':
+            res = self._pure('d.inc(%s, %s = %r) on %s' % (sig, c, v, rd), lambda: d.inc(f, **{c: v}))
+            keep = [a and b for a, b in zip(yes, cond)]
+            self.flags.add('fn_then_value')
+            if not any(yes):
+                self.flags.add('fn_then_value_empty')
+        elif form == 'inc_dict_fn':
+            res = self._pure('d.inc({%r: %r}, %s) on %s' % (c, v, sig, rd), lambda: d.inc({c: v}, f))
+            keep = [a and b for a, b in zip(yes, cond)]
+            self.flags.add('fn_then_value')
+            if not any(yes):
+                self.flags.add('fn_then_value_empty')
+        else:
+            res = self._pure('d.exc(%s, %s = %r) on %s' % (sig, c, v, rd), lambda: d.exc(f, **{c: v}))
+            keep = [not a and not b for a, b in zip(yes, cond)]
+            self.flags.add('fn_then_value')
+        newm = T(m.cols, [r for r, b in zip(m.rows, keep) if b])
+        if m.n > 0 and newm.n == 0:
+            self.flags.add('mask_to_empty')
+        self.flags.add('fn_filter')
+        self._add('filter_fn', res, newm, [e])
+
+    def op_get(self, t, col, missing, v, form):
+        """d.get(column) is the column; d.get(absent, default) is the default once per row (None without a default)"""
+        self._begin('get')
+        e = self._pick(t)
+        if e is None:
+            return self._skip()
+        self._use('get', e)
+        d, m = e['d'], e['m']
+        rd = short(raw(d), 150)
+        v = build(v)
+        if missing or not m.cols:
+            c = self._fresh(e, col)
+            exp = [v if form != 'get' else None] * m.n
+        else:
+            c = m.cols[col % len(m.cols)]
+            exp = m.col(c)
+        if form == 'get':
+            res = self._pure('d.get(%r) on %s' % (c, rd), d.get, c)
+        elif form == 'get_default':
+            res = self._pure('d.get(%r, %r) on %s' % (c, v, rd), d.get, c, v)
+        else:
+            res = self._pure('d.get(%r, default = %r) on %s' % (c, v, rd), lambda: d.get(c, default=v))
+        check(isinstance(res, list) and same_list(res, exp), 'd.get(%r%s) = %s on %s, the model says %s', c, '' if form == 'get' else ', %r' % (v,), res, rd, exp)
+        if form != 'get' and (missing or not m.cols) and m.n > 0:
+            self.flags.add('optional_params')
+
+    # ------------------------------------------------------------------ read, change in place, read again
+    def _read(self, e, read, a, force=None):
+        """one reading / deriving call on the table of e, judged by its model; -> the columns the call named"""
+        d, m = e['d'], e['m']
+        rd = short(raw(d), 150)
+        n = m.n
+        cs = list(force) if force and all(c in m.cols for c in force) else self._cols_of(e, a['cols'])
+        c = cs[0]
+        if read == 'take':
+            idx = [(i % n) if i >= 0 else -((-i - 1) % n) - 1 for i in a['idx']] if n else []
+            res = self._pure('d[%s] on %s' % (idx, rd), d.__getitem__, list(idx))
+            self._verify('d[%s] on %s' % (idx, rd), res, T(m.cols, [m.rows[i] for i in idx]))
+            return []
+        if read == 'mask':
+            bits = [bool((a['bits'] >> (i % MAXROWS)) & 1) for i in range(n)]
+            res = self._pure('d[%s] on %s' % (bits, rd), d.__getitem__, list(bits))
+            self._verify('d[%s] on %s' % (bits, rd), res, T(m.cols, [r for r, b in zip(m.rows, bits) if b]))
+            return []
+        if read == 'slice':
+            sl = slice(None, None, -1) if a['k'] % 2 else slice(1, None, 2)
+            res = self._pure('d[%s] on %s' % (sl, rd), d.__getitem__, sl)
+            self._verify('d[%s] on %s' % (sl, rd), res, T(m.cols, m.rows[sl]))
+            return []
+        if read == 'project':
+            res = self._pure('d[%s] on %s' % (cs, rd), d.__getitem__, list(cs))
+            self._verify('d[%s] on %s' % (cs, rd), res, T(cs, m.rows))
+            return cs
+        if read == 'tuple':
+            res = self._pure('d[%s] on %s' % (tuple(cs), rd), d.__getitem__, tuple(cs))
+            exp = [tuple(r[x] for x in cs) for r in m.rows]
+            check(isinstance(res, list) and len(res) == len(exp) and all(isinstance(x, tuple) and same_list(list(x), list(y)) for x, y in zip(res, exp)),
+                  'd[%s] = %s on %s, the model says %s', tuple(cs), res, rd, exp)
+            return cs
+        if read in ('inc', 'exc'):
+            column = m.col(c)
+            v = column[a['pick'] % n] if n else 0
+            keep = [_cond(r[c], v) == (read == 'inc') for r in m.rows]
+            res = self._pure('d.%s(%s = %r) on %s' % (read, c, v, rd), lambda: getattr(d, read)(**{c: v}))
+            self._verify('d.%s(%s = %r) on %s' % (read, c, v, rd), res, T(m.cols, [r for r, b in zip(m.rows, keep) if b]))
+            return [c]
+        if read in ('fn', 'call', 'apply'):
+            names = cs[:2]
+            f, names, ref = self._fn(('reread', tuple(names), a['fn']), lambda: _shaped(names, FN[a['fn']], 'plain'))
+            column = [ref(r) for r in m.rows]
+            if read == 'call':
+                tgt = self._fresh(e, a['col'])
+                res = self._pure('d(%s = lambda %s: %s) on %s' % (tgt, ', '.join(names), a['fn'], rd), lambda: d(**{tgt: f}))
+                self._verify('d(%s = lambda %s: %s) on %s' % (tgt, ', '.join(names), a['fn'], rd), res, self._assign_model(m, tgt, column))
+            else:
+                res = self._pure('d[lambda %s: %s] on %s' % (', '.join(names), a['fn'], rd), (d.__getitem__ if read == 'fn' else d.apply), f)
+                check(isinstance(res, list) and same_list(res, column), 'd[lambda %s: %s] = %s on %s, the model says %s', ', '.join(names), a['fn'], res, rd, column)
+            return names
+        if read == 'do':
+            f1 = F1[a['fn1']]
+            fv = self._fn(('reread_do', a['fn1']), lambda: (lambda value: f1(value)))
+            res = self._pure('d.do(%s, *%s) on %s' % (a['fn1'], cs, rd), d.do, fv, *cs)
+            self._verify('d.do(%s, *%s) on %s' % (a['fn1'], cs, rd), res, T(m.cols, [{x: (f1(v) if x in cs else v) for x, v in r.items()} for r in m.rows]))
+            return cs
+        if read == 'rename':
+            new = self._fresh(e, a['col'])
+            res = self._pure('d.rename(%s = %r) on %s' % (c, new, rd), lambda: d.rename(**{c: new}))
+            self._verify('d.rename(%s = %r) on %s' % (c, new, rd), res, T([new if x == c else x for x in m.cols], [{(new if x == c else x): v for x, v in r.items()} for r in m.rows]))
+            return [c]
+        if read == 'minus':
+            res = self._pure('d - %r on %s' % (c, rd), lambda: d - c)
+            self._verify('d - %r on %s' % (c, rd), res, T([x for x in m.cols if x != c], m.rows))
+            return [c]
+        if read == 'self_add' and 2 * n <= MAXROWS:
+            res = self._pure('d + d on %s' % rd, lambda: d + d)
+            self._verify('d + d on %s' % rd, res, T.concat([m, m]))
+            if n:
+                self.flags.add('same_object_twice')
+            return []
+        r = {x: m.rows[a['pick'] % n][x] if n else a['k'] for x in cs}
+        res = self._pure('d + %s on %s' % (r, rd), lambda: d + dict(r))
+        self._verify('d + %s on %s' % (r, rd), res, T.concat([m, T.from_records([r])]))
+        return cs
+
+    def op_reread(self, t, read, upd, idx, cols, bits, col, pick, fn, fn1, vals, k):
+        """a read, an in-place change of the SAME table, the same read again (whatever the table remembers of the first read must not outlive the change)"""
+        self._begin('reread')
+        e = self._pick(t, lambda e: e['m'].cols and e['m'].n > 0) or self._pick(t, lambda e: e['m'].cols)
+        if e is None:
+            return self._skip()
+        self._use('reread', e)
+        a = dict(idx=idx, cols=cols, bits=bits, col=col, pick=pick, fn=fn, fn1=fn1, k=k)
+        used = self._read(e, read, a)
+        self.check()
+        d, m = e['d'], e['m']
+        free = [c for c in m.cols if c not in used]
+        if upd in ('delcol', 'delattr') and not (free and len(m.cols) >= 2):
+            upd = 'set_existing'
+        if upd in ('delcol', 'delattr'):
+            self._delcol(e, free[col % len(free)], 'item' if upd == 'delcol' else 'attr')
+        else:
+            if upd == 'set_new':
+                c = self._fresh(e, col)
+            else:
+                pool = used or m.cols            # change a column the read looked at
+                c = pool[col % len(pool)]
+            cells = [build(v) for v in vals]
+            value = [cells[(i + k) % len(cells)] for i in range(m.n)]
+            what = {'attr': 'd.%s = %s', 'update': 'd.update({%r: %s})'}.get(upd, 'd[%r] = %s') % (c, short(value, 100)) + ' on %s' % short(raw(d), 150)
+            snap = self._snap(skip=d)
+            if upd == 'attr':
+                call(what, setattr, d, c, value)
+            elif upd == 'update':
+                call(what, d.update, {c: value})
+            else:
+                call(what, d.__setitem__, c, value)
+            self._unchanged(what, snap)
+            newm = self._assign_model(m, c, list(value))
+            m.cols, m.rows = newm.cols, newm.rows
+            e['gen'] += 1
+        self.check()
+        self._read(e, read, a, force=used)
+        self.flags.add('read_update_read')
+
+    # ------------------------------------------------------------------ one argument container, several calls
+    def op_shared_arg(self, t, t2, form, cols, names, rec, rec2, vals, vals2, k, col, pick, fn1):
+        """the caller keeps ONE dict / list and hands it to several calls (first next to extra keywords, then alone): no call may write into it, every call is judged by its original content"""
+        from pyg_base import dictable
+        self._begin('shared_arg')
+        e = self._pick(t, lambda e: e['m'].cols) if form in ('inc_dict', 'exc_dict', 'rename_dict', 'cols_list') else self._pick(t)
+        if form == 'ctor_dict' or e is None:
+            # A = {column: list}; dictable(A, extra = ..) then dictable(A)
+            n = 1 + k % 4
+            A = {c: [build(_cv(c, i, 'mixed')) for i in range(n)] for c in names}
+            extra = {self._fresh(dict(m=T(names, [])), k): build(vals[0]), self._fresh(dict(m=T(names, [])), k + 1, avoid=[self._fresh(dict(m=T(names, [])), k)]): [build(vals2[i % len(vals2)]) for i in range(n)]}
+            before = _freeze(A)
+            what = 'dictable(A, **%s) with A = %s' % (short(extra, 100), short(A, 150))
+            r1 = self._pure(what, lambda: dictable(A, **extra))
+            self._unfrozen(what, A, before)
+            cells = {x: (y if isinstance(y, list) else [y] * n) for x, y in extra.items()}
+            self._verify(what, r1, T.from_columns([(c, list(A[c])) for c in A] + [(x, cells[x]) for x in cells]))
+            what = 'dictable(A) after dictable(A, **%s) with A = %s' % (short(extra, 100), short(A, 150))
+            r2 = self._pure(what, dictable, A)
+            self._unfrozen(what, A, before)
+            m2 = T.from_columns([(c, list(A[c])) for c in A])
+            self._verify(what, r2, m2)
+            self._add('shared_arg', r2, m2)
+            self.flags.add('shared_arg_container')
+            return
+        self._use('shared_arg', e)
+        d, m = e['d'], e['m']
+        rd = short(raw(d), 150)
+        operands = [e]
+        if form in ('inc_dict', 'exc_dict'):
+            c = m.cols[col % len(m.cols)]
+            c2 = m.cols[(col + 1) % len(m.cols)]
+            v = m.col(c)[pick % m.n] if m.n else 0
+            v2 = m.col(c2)[(pick + k) % m.n] if m.n else 0
+            F = {c: v}
+            before = _freeze(F)
+            extra = {c2: v2} if c2 != c else {}
+            one = [_cond(r[c], v) for r in m.rows]
+            both = [a and _cond(r[c2], v2) for a, r in zip(one, m.rows)] if extra else one
+            meth = form[:3]
+            for kw, hold in ((extra, both), ({}, one)):
+                what = 'd.%s(F, **%s) with F = %s on %s' % (meth, kw, F, rd)
+                res = self._pure(what, lambda: getattr(d, meth)(F, **kw))
+                self._unfrozen(what, F, before)
+                keep = hold if meth == 'inc' else [not b for b in hold]
+                newm = T(m.cols, [r for r, b in zip(m.rows, keep) if b])
+                self._verify(what, res, newm)
+        elif form == 'rename_dict':
+            c = m.cols[col % len(m.cols)]
+            c2 = m.cols[(col + 1) % len(m.cols)]
+            new = self._fresh(e, k)
+            new2 = self._fresh(e, k + 1, avoid=[new])
+            M = {c: new}
+            before = _freeze(M)
+            extra = {c2: new2} if c2 != c else {}
+            for kw in (extra, {}):
+                mp = dict(M, **kw)
+                what = 'd.rename(M, **%s) with M = %s on %s' % (kw, M, rd)
+                res = self._pure(what, lambda: d.rename(M, **kw))
+                self._unfrozen(what, M, before)
+                newm = T([mp.get(x, x) for x in m.cols], [{mp.get(x, x): y for x, y in r.items()} for r in m.rows])
+                self._verify(what, res, newm)
+        elif form == 'records':
+            if m.n + 2 > MAXROWS:
+                return self._skip()
+            R = [{c: build(v) for c, v in rec}, {c: build(v) for c, v in rec2}]
+            before = _freeze(R)
+            rm = T.from_records(R)
+            what = 'd + R with R = %s on %s' % (short(R, 120), rd)
+            res = self._pure(what, lambda: d + R)
+            self._unfrozen(what, R, before)
+            newm = T.concat([m, rm])
+            self._verify(what, res, newm)
+            o = self._pick(t2)
+            if o['m'].n + 2 <= MAXROWS:
+                what = 'd2 + R after d + R with R = %s on %s' % (short(R, 120), short(raw(o['d']), 150))
+                res2 = self._pure(what, lambda: o['d'] + R)
+                self._unfrozen(what, R, before)
+                self._verify(what, res2, T.concat([o['m'], rm]))
+            what = 'dictable(R) after d + R with R = %s' % short(R, 120)
+            res3 = self._pure(what, dictable, R)
+            self._unfrozen(what, R, before)
+            self._verify(what, res3, rm)
+        elif form == 'cols_list':
+            L = self._cols_of(e, cols)
+            before = _freeze(L)
+            f1 = F1[fn1]
+            calls = [('d[L]', lambda: d[L], T(L, m.rows)),
+                     ('d - L', lambda: d - L, T([c for c in m.cols if c not in L], m.rows)),
+                     ('d & L', lambda: d & L, T(L, m.rows)),
+                     ('d.do(%s, L)' % fn1, lambda: d.do(lambda value: f1(value), L), T(m.cols, [{x: (f1(y) if x in L else y) for x, y in r.items()} for r in m.rows])),
+                     ('d[L] again', lambda: d[L], T(L, m.rows))]
+            for j in range(len(calls)):
+                name, f, newm = calls[(j + k) % len(calls)]
+                what = '%s with L = %s on %s' % (name, L, rd)
+                res = self._pure(what, f)
+                self._unfrozen(what, L, before)
+                self._verify(what, res, newm)
+        else:
+            # in place: the table takes the caller's list; later changes of the table never write into it
+            c = self._fresh(e, col) if (k % 2 or not m.cols) else m.cols[col % len(m.cols)]
+            n = m.n if m.cols else 1 + k % 4
+            V = [build(vals[i % len(vals)]) for i in range(n)]
+            W = [build(vals2[(i + 1) % len(vals2)]) for i in range(n)]
+            if k % 3 == 0 and m.cols:
+                V = V[:1] or [build(vals[0])]       # the caller's list holds ONE cell (broadcast over the rows): it must still hold one cell afterwards
+                self.flags.add('broadcast')
+            original = list(V)
+            c2 = self._fresh(e, col + 1, avoid=[c])
+            if form == 'update_dict':
+                U = {c: V}
+                before = _freeze(U)
+                steps = [('d.update(U)', lambda: d.update(U), c, V), ('d.update(U) again', lambda: d.update(U), c, V), ('d[%r] = %s' % (c, short(W, 80)), lambda: d.__setitem__(c, W), c, W)]
+            else:
+                U = V
+                before = _freeze(U)
+                steps = [('d[%r] = V' % c, lambda: d.__setitem__(c, V), c, V), ('d[%r] = V' % c2, lambda: d.__setitem__(c2, V), c2, V), ('d[%r] = %s' % (c, short(W, 80)), lambda: d.__setitem__(c, W), c, W)]
+                self.flags.add('shared_column_list')
+            for name, f, tgt, cells in steps:
+                what = '%s with V = %s on %s' % (name, short(original, 100), short(raw(d), 150))
+                snap = self._snap(skip=d)
+                call(what, f)
+                self._unchanged(what, snap)
+                self._unfrozen(what, U, before)
+                newm = self._assign_model(m, tgt, list(cells))
+                m.cols, m.rows = newm.cols, newm.rows
+                self.check()
+            e['gen'] += 1
+            what = 'dictable(%s = V) after the table that held V was changed, V = %s' % (c, short(original, 100))
+            res = self._pure(what, lambda: dictable({c: V}))
+            self._unfrozen(what, U, before)
+            self._verify(what, res, T.from_columns([(c, original)]))
+        self.flags.add('shared_arg_container')
+
     # ------------------------------------------------------------------ invariant
     def check(self):
+        self._table_classes()
         for j, e in enumerate(self.pool):
             d, m = e['d'], e['m']
             who = 'table %i (from %s)' % (j, e['src'])
@@ -1220,6 +1973,11 @@ class Tables(object):
             check(n == m.n, '%s has %s rows, the model has %s (store %s; model rows %s)', who, n, m.n, store, m.rows)
             for c in m.cols:
                 check(same_list(store[c], m.col(c)), '%s: column %s is %s, the model says %s', who, c, store[c], m.col(c))
+                # a cell the table computed itself (a NaN out of a user function) is another object than the one the model computed: from here on the model
+                # holds the table's object, so that conditions that go by identity (python membership of a NaN in a list of values) are judged on the same objects
+                for r, x in zip(m.rows, store[c]):
+                    if r[c] is not x:
+                        r[c] = x
             # public views
             ln = call('len(d) of %s' % who, len, d)
             check(ln == n, '%s: len() = %s but the columns have %s cells: %s', who, ln, n, store)
@@ -1246,6 +2004,21 @@ class Tables(object):
                     for c in m.cols:
                         check(same(dict.__getitem__(r, c), store[c][idx]), '%s: d[%s][%r] = %s but d[%r][%s] = %s', who, idx, c, dict.__getitem__(r, c), c, idx, store[c][idx])
 
+    def _table_classes(self):
+        for e in self.pool:
+            m = e['m']
+            for c in m.cols:
+                col = m.col(c)
+                if any(_isnan(v) for v in col):
+                    self.flags.add('nan_cells')
+                if len(col) >= 2 and all(_isnumber(v) for v in col):
+                    ints = [v for v in col if _isint(v)]
+                    floats = [v for v in col if not _isint(v)]
+                    if ints and floats:
+                        self.flags.add('numeric_only_column')       # numbers only, ints next to floats: what a vectorised path would turn into one float array
+                        if any(abs(int(v)) > 2 ** 53 for v in ints):
+                            self.flags.add('big_int_next_to_float')
+
     # ------------------------------------------------------------------ classification
     def info(self):
         key = self.flags & {'empty', 'broadcast', 'concat_diffcols', 'misfit'}
@@ -1270,7 +2043,14 @@ SUBS = [
                     'inc / exc by value, d[lambda], d(c = lambda) incl. dependent pairs, d(c = value), rename / relabel (kw, dict, prefix, suffix, function, list), '
                     'do (all, *cols, [cols], [], [f, g], function of another column), + / concat / sum of tables (also of one table and itself with its columns reordered), + record(s) '
                     '(records over one key set each written in its own key order, cells distinguishable per column; also ragged), + None / 0, copy / inc() / exc() / dictable(d) / d[:], the statements d += record(s) / table / None, d -= cols, d &= cols, d |= {col: fitting list} '
-                    '(old object kept alive and re-inspected), integer-list selection / deletion of a non-last column / selection again on one table. '
+                    '(old object kept alive and re-inspected), integer-list selection / deletion of a non-last column / selection again on one table; '
+                    'a read (take, mask, projection, inc / exc, d[f], d(c = f), apply, do, slice, rename, d - c, d + d, d + record), an in-place change of the same table, the same read again with the same function objects; '
+                    'one argument container (data dict, inc / exc / rename dict, list of records, list of column names, update dict, value list incl. a length-1 list) handed to several calls, first next to extra keywords, '
+                    'judged by its original content and required to stay as it was; cells in several raw types for one value (python / numpy float64 / int64, datetime / Timestamp), conditions written in another raw type than the cells, '
+                    'row indices / integer lists / masks of numpy and mixed element types; the same table or record object twice in one concatenation, d += d, one list object as two columns; numbers-only columns with ints beyond 2**53 next to floats, '
+                    'NaN, -0.0; inc / exc by a NaN that is another object than the cells; headers / pairs / selections naming a column twice; user functions of the shapes f(a, **kw), f(a, *rest), f(p0, *rest), keyword-only, defaults that are columns, '
+                    'container defaults as long as the table, f(**kw), f(*a, **kw), two functions out of one factory, one function object for two keys / two calls; inc / exc by predicates (one, several, with a value condition); '
+                    'd.get(c, default), d.apply(f, **defaults); strings exactly as long as the table as one cell, range / dict_values as column values, value lists exactly as long as the table holding 0 / 1; do([f, g]) with f, g that do not commute. '
                     'oracle after every step for every live table: rectangular column store, len, shape, keys, columns, dict(d), d[c], iteration, d[i][c] == d[c][i] '
                     '(also negative i) against the model; all live tables unchanged by every non-in-place call; misfit assignment raises ValueError and changes nothing. '
                     'non-trivial = >= 3 operations, a table produced by one rule consumed by another, and an empty table / broadcast / concatenation with differing columns / '
@@ -1278,5 +2058,12 @@ SUBS = [
                floor=0.5,
                class_floors={'empty': 0.3, 'broadcast': 0.1, 'concat_diffcols': 0.15, 'misfit': 0.15, 'chain': 0.4, 'mask_to_empty': 0.05,
                              'records_same_keys_different_order': 0.1, 'concat_same_cols_different_order': 0.03,
-                             'iadd': 0.15, 'take_delcol_take': 0.1}),
+                             'iadd': 0.15, 'take_delcol_take': 0.1,
+                             # classes 11-20 of the brief (floors: about a third of the rate seen over seeds 1-3)
+                             'read_update_read': 0.08, 'fn_object_reused': 0.05, 'shared_arg_container': 0.075, 'raw_types_same_value': 0.012, 'raw_index_types': 0.05,
+                             'same_object_twice': 0.08, 'shared_column_list': 0.015, 'numeric_only_column': 0.08, 'big_int_next_to_float': 0.025, 'nan_cells': 0.15,
+                             'duplicate_labels': 0.065, 'fn_shape': 0.13, 'fn_shape=kw': 0.03, 'fn_shape=rest': 0.03, 'fn_shape=p0_rest': 0.012, 'fn_shape=kwonly': 0.03,
+                             'fn_shape=default_col': 0.028, 'fn_shape=default_absent': 0.028, 'fn_shape=allkw': 0.015, 'fn_shape=allargs': 0.02, 'fn_shape=other_name': 0.015,
+                             'fn_factory_pair': 0.014, 'fn_filter': 0.08, 'fn_then_value': 0.025, 'optional_params': 0.04,
+                             'filter_by_nan': 0.003, 'str_len_n_scalar': 0.022, 'range_value': 0.065, 'filter_list_len_n': 0.011, 'do_fns_order_matters': 0.007}),
 ]
